@@ -2,8 +2,9 @@
 The judgment the invariant proofs are phrased in.  `Safe G Q r`: the computation `r`
 * either succeeds with a result satisfying `Q`,
 * or runs out of nesting fuel,
-* or panics at one of the four *known* sites (F-4, F-5, F-9, F-10) — and then the guard `G`
-  ("no known trigger is present") is false.
+* or panics at one of the two *known* sites (F-4, F-5; the sites of F-9 and F-10 are gone since
+  those defects were fixed in the engine) — and then the guard `G` ("no known trigger is present")
+  is false.
 So `Safe True Q r` excludes every panic (C09 under the guard), and `Safe G Q r` for any `G` excludes
 the `contract:` panics of the checking adapter (C21) and gives `Q` on success (C13).
 -/
